@@ -242,7 +242,10 @@ DumpOK(op) ==
 Dump(op) == DumpOK(op) /\ out' = <<>> /\ UNCHANGED <<cfg, cst, dying, uid, uname, everNames, queue, rules, pend, mon, fdx, act>>
 
 Apply0(s, op) ==
-  IF cst[s] = "monitor" /\ op.k # "connect" THEN Plain(MonitorSpeaks(s)) ELSE
+  IF cst[s] = "monitor" /\ op.k # "connect"
+  THEN \/ Plain(MonitorSpeaks(s))
+       \/ op.k = "send" /\ Dev("MonitorPeerAnsweredLocally", Dev_MonitorPeerAnsweredLocally(s, OpMsg(op), op.fsnd))
+  ELSE
   CASE op.k = "connect" -> Plain(Connect(s, op.uid, op.fdcap))
     [] op.k = "monitor" -> \E order \in [1..Cardinality(NamesOf(queue, s)) -> NamesOf(queue, s)] :
                               Plain(BecomeMonitor(s, op.ser, op.fl, op.rules, op.flags, order))
